@@ -1,7 +1,7 @@
 #!/bin/sh
 # tools/run_benign.sh [dir]  -- apply each behaviour-preserving refactor of /verif/benign/<set>/*.diff to /repo (one at a time),
 # run every quick check, undo, and report any alarm (every alarm here is a false alarm to be investigated)
-D="${1:-/verif/benign}"
+D=$(realpath "${1:-/verif/benign}")
 [ -z "$(git -C /repo status --porcelain)" ] || { echo "/repo not clean"; exit 3; }
 bad=0
 for p in $(find "$D" -name '*.diff' | sort); do
